@@ -94,9 +94,9 @@ Section P.
   Theorem hrender_no_panic cdata st z o : (forall p ns, o <> OPrefix p ns) -> hrender nm hn cdata st z o <> HPanic.
   Proof.
     intros Hp. destruct o; cbn [hrender]; try (exfalso; eapply Hp; reflexivity).
-    - destruct (must_be_unprefixed hn (n_ns_of_name nm name) && negb (has_empty_prefix (n_empty_prefix nm) (fs_push (hs_stack st) (declarations z)) (n_ns_of_name nm name))).
-      + destruct (declarations z); discriminate.
-      + destruct (element_fullname nm (fs_push (hs_stack st) (declarations z)) name); discriminate.
+    - match goal with |- context [if ?c then _ else _] => destruct c end.
+      + destruct (effective_declarations nm z name); discriminate.
+      + match goal with |- context [element_fullname ?a ?b ?c] => destruct (element_fullname a b c) end; discriminate.
     - discriminate.
     - destruct (html_matches nm hn void_names name); [discriminate|].
       destruct (element_fullname nm (hs_stack st) name); discriminate.
@@ -130,14 +130,14 @@ Section P.
 
   Theorem html_foreign_unprefixed cdata st z name st' t :
     must_be_unprefixed hn (n_ns_of_name nm name) = true -> n_ns_of_name nm name <> n_no_ns nm ->
-    NoDup (map fst (fs_top (fs_push (hs_stack st) (declarations z)))) ->
+    NoDup (map fst (fs_top (fs_push (hs_stack st) (effective_declarations nm z name)))) ->
     hrender nm hn cdata st z (OStartTagOpen name) = HOk (st', t) ->
     t_text t = [60] ++ n_local nm name ++ [32] ++ s_xmlns ++ [61; 34] ++ n_ns_str nm (n_ns_of_name nm name) ++ [34]
     \/ (t_text t = [60] ++ n_local nm name
-        /\ assoc_p (n_empty_prefix nm) (fs_top (fs_push (hs_stack st) (declarations z))) = Some (n_ns_of_name nm name)).
+        /\ assoc_p (n_empty_prefix nm) (fs_top (fs_push (hs_stack st) (effective_declarations nm z name))) = Some (n_ns_of_name nm name)).
   Proof.
     intros Hm Hn Hnd. cbn [hrender]. rewrite Hm. cbn [andb].
-    set (s1 := fs_push (hs_stack st) (declarations z)) in *.
+    set (s1 := fs_push (hs_stack st) (effective_declarations nm z name)) in *.
     destruct (has_empty_prefix (n_empty_prefix nm) s1 (n_ns_of_name nm name)) eqn:Eh; cbn [negb].
     - (* the default namespace in force is already the element's namespace: the name is written unprefixed *)
       unfold element_fullname.
@@ -146,7 +146,7 @@ Section P.
       destruct (element_prefix_by_namespace (n_empty_prefix nm) (fs_top s1) (n_ns_of_name nm name)) as [p|]; [|discriminate].
       rewrite Eh in *. cbn [qname]. intros H. inversion H; subst. right. split; [reflexivity|].
       destruct Hs as [Hs|Hs]; [apply N.eqb_neq in Hn; contradiction|exact Hs].
-    - destruct (declarations z); intros H; inversion H; subst; left; reflexivity.
+    - destruct (effective_declarations nm z name); intros H; inversion H; subst; left; reflexivity.
   Qed.
 
   Theorem pi_gt_refused cdata st z target d :
